@@ -114,6 +114,7 @@ def gg_coplanar(draw, recipe):
     g = draw(GB.polygon(3, 6))
     h = draw(GB.polygon_in_plane_of(g, recipe))
     assume(h is not None and len(h[1]) >= 3)
+    assume(GB.max_coord(h) <= 40)
     return (g, h, recipe)
 
 
@@ -122,6 +123,7 @@ def gg_crossing(draw, recipe):
     g = draw(GB.polygon(3, 6))
     h = draw(GB.polygon_crossing(g, recipe))
     assume(h is not None and len(h[1]) >= 3)
+    assume(GB.max_coord(h) <= 40)
     return (g, h, recipe)
 
 
@@ -130,6 +132,7 @@ def gk(draw, recipe):
     K = draw(GB.polyhedron())
     g = draw(GB.polygon_vs_polyhedron(K, recipe))
     assume(g is not None and len(g[1]) >= 3)
+    assume(GB.max_coord(g) <= 40)
     if draw(st.booleans()):
         return (g, K, recipe)
     return (K, g, recipe)
@@ -139,6 +142,7 @@ def gk(draw, recipe):
 def kk(draw, recipe):
     K = draw(GB.polyhedron())
     K2 = draw(GB.polyhedron_vs_polyhedron(K, recipe))
+    assume(GB.max_coord(K2) <= 40)
     return (K, K2, recipe)
 
 
